@@ -657,6 +657,7 @@ func runFlatProp(c *Ctx, fp *flatProp) {
 		for _, o := range in.optionSets(fp.Filter) {
 			var runs []*flatRun
 			for _, pol := range []mcrt.Policy{mcrt.Asc, mcrt.Desc} {
+				c.Begin(&Violation{Signature: "fatal crash of the process", Generator: "flatten", Input: in.B, Env: J{"policy": int(pol), "opts": o}})
 				r := runFlat(in, o, pol)
 				runs = append(runs, r)
 				c.Execs++
